@@ -183,9 +183,10 @@ Proof. repeat split; vm_compute; reflexivity. Qed.
 Print Assumptions C20_generated_handler_constants.
 
 (* the hot path: read() of both channels is  transport.read -> remove CR -> lazy "read: %r" record ->
-   channel log -> ANSI strip -> return, and nothing else in the channel modules reads the transport *)
+   channel log -> hold back a trailing partial escape sequence (7) -> ANSI strip -> return, and nothing else
+   in the channel modules reads the transport; the record and the channel log come before anything alters buf *)
 Theorem C20_generated_read_path :
-  gen_read_steps_sync = [1; 2; 3; 4; 5; 6]%nat /\ gen_read_steps_async = [1; 2; 3; 4; 5; 6]%nat
+  gen_read_steps_sync = [1; 2; 3; 4; 7; 5; 6]%nat /\ gen_read_steps_async = [1; 2; 3; 4; 7; 5; 6]%nat
   /\ gen_transport_read_sites_sync = [[114; 101; 97; 100]] /\ gen_transport_read_sites_async = [[114; 101; 97; 100]]
   /\ gen_transport_read_sites_base = [].
 Proof. repeat split; vm_compute; reflexivity. Qed.
